@@ -109,6 +109,27 @@ def gen_case(seed):
         for o in script:
             if o["side"] == "client" and r2.random() < 0.6:
                 o["t"] = r2.choice([0.0, 0.0, 0.001, 0.004])
+    r3 = random.Random("c06-lower/%s" % seed)
+    if r3.random() < 0.25:
+        # the peer (its genuine keys, a fresh packet number) announces *lower* limits than before: MAX_DATA,
+        # MAX_STREAM_DATA and MAX_STREAMS never go backwards, so the sender must ignore them and keep using what
+        # it was granted (the ledger keeps the maximum seen)
+        first_write = {}
+        for o in script:
+            if o["op"] == "write" and o["sid"] < 64:
+                first_write.setdefault((o["side"], o["sid"]), o["t"])
+        for _ in range(r3.choice([1, 2, 4])):
+            side = r3.choice(["client", "server"])
+            t = round(0.2 + r3.random() * 1.5, 4)
+            # MAX_STREAM_DATA only for streams this side has certainly opened by then (anything else is a protocol error)
+            own = [sid for (sd, sid), tw in first_write.items() if sd == side and tw + 0.15 < t and (sid % 2 == 0) == (side == "client")]
+            # value 0: never above what was granted before, whatever the configured limits are
+            cands = ["1000", "1200", "1300"]
+            op = {"t": t, "side": side, "op": "forge", "ptype": "1rtt", "frames_hex": r3.choice(cands)}
+            if own and r3.random() < 0.5:
+                sid = r3.choice(own)
+                op.update(frames_hex="11%02x00" % sid, require_stream=sid)
+            script.append(op)
     script.sort(key=lambda o: o["t"])
     return {"seed": seed, "opts": opts, "fates": fates, "script": script, "horizon": fates["adv_seconds"] + 150.0}
 
